@@ -3,7 +3,7 @@
    Statements only.  Raw XML abstraction, XmlOK, canonical writer: Tablexml.v; names: Names.v. *)
 From Coq Require Import List ZArith NArith Lia Bool Arith.
 Import ListNotations.
-Require Import Vault Vaultproof Row Table Grid Tableabs Tablexml Tablexmlproof Tableproof6 Names Namesproof Namesproof2.
+Require Import Vault Vaultproof Row Table Grid Tableabs Tablexml Tablexmlproof Tableproof6 Names Namesproof Namesproof2 TableLive TableLiveproof Tablexml2 Tablexml2proof.
 Open Scope Z_scope.
 
 (* ---- full statement (structural part): from any well-formed state whose rows fit the declared columns, after any
@@ -97,3 +97,21 @@ Example C07_named_range_classes_inhabited :
   same_set lit_letters lit_letters = true /\ nr_name_ok_fixed lit_letters lit_digits [32%N] [32;97;95;49;32]%N = true /\   (* " a_1 " *)
   nr_name_ok_fixed lit_letters lit_digits [32%N] [65;66;49;50]%N = false.                                              (* "AB12" *)
 Proof. repeat split; vm_compute; reflexivity. Qed.
+
+(* refuted for live row handles (get_row(y, clone=False) then Row.append_cell ...): the row is edited in place and the
+   column declarations are not grown, so the XML can be left with a row wider than the declared columns *)
+Theorem C07_live_row_handle_breaks_fit_refuted : exists (t : tstate) (y : Z) (os : list rop) t',
+  WF t /\ fits t = true /\ Forall live_ok os /\ t_live_row y os t = Some t' /\ XmlOK (render t') = false.
+Proof. exact live_row_breaks_fit_w. Qed.
+Print Assumptions C07_live_row_handle_breaks_fit_refuted.
+
+(* ---- tables with wrapper elements (table:table-header-rows / table-rows / table-header-columns / table-columns) and
+        groups: XmlOK2 (Tablexml2.v) is conservative over XmlOK on tables without them, and implies XmlOK of the table
+        odfdo sees (flatten); the correspondence (family "grp") checks on every step that a call either refuses and
+        leaves the raw table untouched or leaves XmlOK2 ---- *)
+Theorem C07_wrappers_conservative : forall x : xtable, XmlOK2 (map Y1 x) = XmlOK x.
+Proof. exact XmlOK2_plain. Qed.
+Print Assumptions C07_wrappers_conservative.
+Theorem C07_wrappers_visible_table_valid : forall x : xtable2, XmlOK2 x = true -> XmlOK (flatten x) = true.
+Proof. exact XmlOK2_visible. Qed.
+Print Assumptions C07_wrappers_visible_table_valid.
